@@ -17,7 +17,7 @@ from vf import prog, sem, record
 from vf.checks.c05 import inner_fun
 
 PROP = "C15"
-CASES = {"quick": 6000, "thorough": 120000}
+CASES = {"quick": 6000, "thorough": 800000}
 RULE = ("1-2 partitions (d = 1..4), 1-5 leaf points, 0-3 combinations, 1-10 get_block calls (random point / block, repeats), "
         "1-2 build-only solves with extra decompositions in between, real coordinate partition of R^n with n >= d.  "
         "Non-trivial = a partition with d >= 2 and >= 2 decomposed points (one of them a combination or decomposed after the "
